@@ -433,11 +433,22 @@ func TestC02(t *testing.T) {
 				broken = "blank bundle path"
 				continue
 			}
-			p := filepath.Join(dir, fmt.Sprintf("bundle-%d-%d.pem", s.Intn(1<<30), i))
+			// a listed path is a path: characters that mean something to a shell or to an expansion routine ($VAR, ${VAR},
+			// ~, %VAR%, *, white space) are part of the file name. A decoy bundle (a root that is listed nowhere) sits where
+			// an expansion of the name would lead.
+			base := fmt.Sprintf("bundle-%d-%d.pem", s.Intn(1<<30), i)
+			odd := rapid.SampledFrom([]string{"", "", "", "$VERIF_NO_SUCH_VARIABLE_", "${VERIF_NO_SUCH_VARIABLE_}", "$HOME-", "~", "%TEMP%", "a b ", "*", "$$"}).Draw(t, fmt.Sprintf("oddName%d", i))
+			p := filepath.Join(dir, odd+base)
 			if err := os.WriteFile(p, []byte(bundle(fmt.Sprintf("file%d", i))), 0o644); err != nil {
 				gen.HarnessError(t, "cannot write bundle: %v", err)
 			}
 			defer os.Remove(p)
+			if exp := os.ExpandEnv(p); exp != p && filepath.Dir(exp) == dir {
+				if err := os.WriteFile(exp, gen.NewPKI(gen.PKISpec{Seed: "pki-decoy"}).Root.PEM, 0o644); err == nil {
+					defer os.Remove(exp)
+				}
+				gen.Class("rot:path-with-expansion-characters")
+			}
 			rot.CabundlePaths = append(rot.CabundlePaths, p)
 		}
 		for i := 0; i < nInline; i++ {
